@@ -132,16 +132,16 @@ pb_repr = specfn("pb_repr", [TBL, TInt, TBytes, DBT], TBool,
 pb_repr.define = lambda M, out, K, DB: _pb_inv(M, out, K, DB, Len(_dkD(DB)), z3.IntVal(0))
 
 VALID_CFG = ["self.config.prf_f_output_length == self.config.param_lambda", "self.config.param_lambda >= 8"]
-contract(SCH + "._Gen", params=dict(self=SCHT), returns=KEYT,
+contract(SCH + "._Gen", modifies_ghost=["rng_n"], params=dict(self=SCHT), returns=KEYT,
          requires=["self.config.param_lambda >= 0"],
-         ensures=["len(result.K) == self.config.param_lambda"], props=["C01", "C03"])
+         ensures=["len(result.K) == self.config.param_lambda", "result.K == draw(old(rng_n))", "rng_n == old(rng_n) + 1"], props=["C01", "C03"])
 contract(SCH + "._Trap", params=dict(self=SCHT, K=KEYT, keyword=TBytes), returns=TOKT,
          requires=VALID_CFG + ["len(K.K) == self.config.param_lambda"],
          ensures=["result.K1 == prf('sha1', self.config.param_lambda, K.K, b'\\x01' + keyword)",
                   "result.K2 == prf('sha1', self.config.param_lambda, K.K, b'\\x02' + keyword)",
                   "len(result.K1) == self.config.param_lambda", "len(result.K2) == self.config.param_lambda"],
          props=["C01", "C02", "C03", "C07"])
-contract(SCH + "._Enc", params=dict(self=SCHT, K=KEYT, database=DBT), returns=EDBT,
+contract(SCH + "._Enc", modifies_ghost=["rng_n"], params=dict(self=SCHT, K=KEYT, database=DBT), returns=EDBT,
          requires=VALID_CFG + ["len(K.K) == self.config.param_lambda"],
          ensures=["pb_repr(dmap(result.D), self.config.param_lambda, K.K, database)",
                   "len(result.D) == total_upto(database, len(database))"],
@@ -190,7 +190,7 @@ for m_ in ("KeyGen", "EDBSetup", "TokenGen", "Search"):
     inline(SCH + "." + m_)
 
 # C01 / C02 for PiBas: verified client code over the contracts of _Enc, _Trap, _Search (public wrappers inlined)
-contract("ghost:pibas_search_correct", params=dict(sse=SCHT, key=KEYT, database=DBT, keyword=TBytes), returns=REST,
+contract("ghost:pibas_search_correct", modifies_ghost=["rng_n"], params=dict(sse=SCHT, key=KEYT, database=DBT, keyword=TBytes), returns=REST,
          body="""def pibas_search_correct(sse, key, database, keyword):
     gK = key.K
     gDB = database
